@@ -92,6 +92,15 @@ def apply(module, d):
                     arr[:] = [hi if i % 2 else lo for i in range(n)]
     elif k == "mcmap":
         module["payload"]["mappings"][d["i"]][0:3] = list(d["v"])
+    elif k == "mmud":
+        n = d["c"]
+        module["options"]["user_defined_controllers"] = n
+        fixed = module["controllers"][:5]
+        module["controllers"] = fixed + [[f"user_defined_{i + 1}", 0] for i in range(n)]
+        module["cmid"] = (module["cmid"] or [])[:5] + [[0, 0, 0, 0] for _ in range(n)]
+        module["cmid"][5 + n - 1] = list(d["cmid"])
+        if d.get("label") is not None:
+            module["payload"]["labels"] = {n - 1: d["label"]}
     else:
         raise ValueError(k)
     module["cvals_raw"] = None
